@@ -70,6 +70,8 @@ CVC_RULES = [
     ("btokCVCVal2", VAL_REQ),
     ("btokCVCUnwrap", [
         ("key given => signature verified (btokVerify)", implies(CMP(True, r"^pubkey_len$"), OK("btokVerify("))),
+        ("verification on the certificate's own key requested (pubkey == cvc->pubkey, pubkey_len == 0) => signature "
+         "verified (btokVerify)", implies(CMP(True, r"^\(pubkey==cvc->pubkey\)$"), OK("btokVerify("))),
         ("outer SEQUENCE closed (derTSEQDecStop)", CMP(False, r"^derTSEQDecStop\(.*==")),
         ("no trailing octets", CMP(False, r"cert_len!=0")),
         ("content check (btokCVCCheck)", OK("btokCVCCheck(cvc")),
@@ -255,13 +257,39 @@ def check_sm(prog, res):
                        detail="decryption only after the MAC was accepted")
 
 
+def body_postconditions(prog, res):
+    """fields that a static container decoder leaves non-zero on success, computed by the decoder-bounds analysis
+    (sa/db.py: states at the successful returns projected on the fields of the pointer parameters).  btokCVCUnwrap's
+    `pubkey_len = cvc->pubkey_len` relies on btokCVCBodyDec having accepted only key lengths 48..128."""
+    from . import db, c08
+    contracts = c08.der_contracts(prog)
+    out = {}
+    for n in sorted(contracts):
+        f = prog.funcs.get(n)
+        if f is None or f.relfile != "src/crypto/btok/btok_cvc.c" or not f.static:
+            continue
+        A = db.Analyzer(f, prog, contracts)
+        post = A.summary(A.run())
+        nz = []
+        for k, b in post:
+            if len(k) == 1 and k[0][1] == -1 and b <= -1:
+                m = re.match(r"m:\$(\d+)((?:->|\.).*)$", k[0][0])
+                if m:
+                    nz.append((int(m.group(1)), m.group(2)))
+        if nz:
+            out[n] = nz
+    res.coverage["decoder_postconditions_used"] = {k: ["arg%d%s != 0" % x for x in v] for k, v in out.items()}
+    return out
+
+
 def run(tier, seed=0):
     res = Result("C17", "other", tier)
     prog = ir.Program("w64")
     n = 0
+    pnz = body_postconditions(prog, res)
     for fn, req in CVC_RULES:
         vprules.check_must(prog, res, "R17.1-chain-validation-complete" if fn.startswith("btok") else "R17.3-container-release",
-                           fn, req)
+                           fn, req, post_nonzero=pnz)
         n += len(req)
     table = mustcall.load_table("token.json")
     n += mustcall.check_table(prog, res, "R17.1-content-checks", table)
